@@ -24,6 +24,7 @@ ENTRY = dict(
         "no protocol / connection / device / sub-device task left": "theorem (tasks = 0) + correspondence (asyncio.all_tasks() after close)",
         "mixers and thermostats with overlapping indexes": "theorem (subdevices_all_shut) + correspondence",
         "devices shut down when already disconnected": "theorem (devices_shut_when_disconnected) + correspondence",
+        "controller stalled in the middle of a frame with requests queued; undecodable / class-less frames before close()": "correspondence (stall S:k before close(), then silence past READER_TIMEOUT and a sending controller; F:u / F:o feeds) + statement-level oracle; the F1 tag additionally requires that the silence was noticed (disconnected, or losses being handled)",
         "states in the middle of a device set-up request round": "theorem (close_during_setup: frames arrive before the next retry timer; request tasks are part of `tasks`) + correspondence (close() at every point of the three request rounds, fast / slow / silent controller; request task count compared with the model)",
         "states after a loss that caught the frame consumers mid-frame": "theorem (stuck_read_queue for the F1 side; AtRest.readIdle excludes them from close_partial) + correspondence (gated histories replayed by the model) + statement-level oracle; the F1 tag requires the F1 match (write queue non-empty without producer progress, or read queue non-empty with no consumer while disconnected)",
     },
